@@ -2,7 +2,16 @@
 
 pub mod payload;
 
+pub mod hist;
+
+pub mod c01;
+pub mod c02;
+pub mod c03;
 pub mod c04;
+pub mod c05;
+pub mod c06;
+pub mod c07;
+pub mod c08;
 pub mod c09;
 pub mod c10;
 pub mod c11;
@@ -11,6 +20,10 @@ pub mod c13;
 pub mod c14;
 pub mod c15;
 pub mod c16;
+pub mod c17;
+pub mod c18;
+pub mod c19;
+pub mod c20;
 
 use crate::engine::{CheckFn, Ctx};
 
@@ -20,7 +33,18 @@ pub const ALL: [&str; 20] = [
 
 pub fn check_fn(prop: &str) -> CheckFn {
     match prop {
+        "C01" => c01::check,
+        "C02" => c02::check,
+        "C03" => c03::check,
         "C04" => c04::check,
+        "C17" => c17::check,
+        "C18" => c18::check,
+        "C19" => c19::check,
+        "C20" => c20::check,
+        "C08" => c08::check,
+        "C07" => c07::check,
+        "C06" => c06::check,
+        "C05" => c05::check,
         "C09" => c09::check,
         "C10" => c10::check,
         "C11" => c11::check,
@@ -35,7 +59,18 @@ pub fn check_fn(prop: &str) -> CheckFn {
 
 pub fn run(prop: &str, ctx: &mut Ctx) {
     match prop {
+        "C01" => c01::run(ctx),
+        "C02" => c02::run(ctx),
+        "C03" => c03::run(ctx),
         "C04" => c04::run(ctx),
+        "C17" => c17::run(ctx),
+        "C18" => c18::run(ctx),
+        "C19" => c19::run(ctx),
+        "C20" => c20::run(ctx),
+        "C08" => c08::run(ctx),
+        "C07" => c07::run(ctx),
+        "C06" => c06::run(ctx),
+        "C05" => c05::run(ctx),
         "C09" => c09::run(ctx),
         "C10" => c10::run(ctx),
         "C11" => c11::run(ctx),
